@@ -9,7 +9,7 @@
 (* (C14, C15, C17, C18, C19) and composed in Properties/C01 only as far as stated below;       *)
 (* the full statement is kept as C01_full_statement.                                           *)
 From LCM Require Import Base.Prelude Base.Arr Spec.Lang Spec.Bellman Spec.Layout.
-From LCM Require Import Proofs.ArrLemmas2 Proofs.Spec_Bellman.
+From LCM Require Import Proofs.ArrLemmas2 Proofs.Spec_Bellman Gen.SolveBrute Proofs.C05_SolveLoop Gen.EntryPoint Proofs.C01_EntryPoint.
 Local Open Scope nat_scope.
 
 (* the choice set of the reference is exactly the product of the choice grids *)
@@ -81,3 +81,65 @@ Example C01_nonvacuous :
   map (fun a => map vred (data a)) (solve_spec demo_model demo_params)
   = [[VFin 0; VFin (3 # 2); VFin 3]; [VFin 0; VFin (3 # 2); VFin 3]].
 Proof. vm_compute. reflexivity. Qed.
+
+(* ---- about the regenerated driver lcm.solve_brute.solve (Gen/SolveBrute.v) ---------------------- *)
+(* lcm's loop IS the backward recursion of the specification's solve_from: the array of period t is  *)
+(* period t's emax calculator applied to period t's continuation values, which are computed from the *)
+(* array of period t+1 -- and from None in the last period -- for arbitrary per-period components    *)
+Theorem C01_driver_is_backward_induction :
+  forall (T_params T_space T_indexers T_grids T_ccv T_emax T_arr T_ccvals : Type)
+         (d_space : T_space) (d_indexers : T_indexers) (d_grids : T_grids) (d_ccv : T_ccv) (d_emax : T_emax)
+         (scp : T_space -> T_ccv -> T_grids -> option T_arr -> T_indexers -> T_params -> T_ccvals)
+         (emax : T_emax -> T_ccvals -> T_params -> T_arr)
+         params spaces indexers grids ccvs emaxs d t,
+  let sol := solve T_params T_space T_indexers T_grids T_ccv T_emax T_arr T_ccvals d_space d_indexers d_grids d_ccv d_emax
+                   scp emax params spaces indexers grids ccvs emaxs in
+  (t < List.length spaces)%nat ->
+  nth t sol d = emax (nth t emaxs d_emax)
+                     (scp (nth t spaces d_space) (nth t ccvs d_ccv) (nth t grids d_grids)
+                          (if (S t =? List.length spaces)%nat then None else Some (nth (S t) sol d))
+                          (nth t indexers d_indexers) params) params.
+Proof. exact solve_is_backward_induction. Qed.
+Print Assumptions C01_driver_is_backward_induction.
+
+(* ---- glue (Gen/EntryPoint.v, regenerated from get_lcm_function) composed with the driver ------- *)
+(* what get_lcm_function(model, "solve") returns satisfies, for arbitrary component constructors:   *)
+(* V_t = emax_t( max over continuous choices of ccv_t( . , V_{t+1}) ) where every component of      *)
+(* period t is built with period t and "is last" iff t = T-1, EXCEPT the space info and the state   *)
+(* indexer, which are those of period t+1 (what V_{t+1} is looked up with) and empty in the last    *)
+(* period; V_{t+1} is absent (None) in the last period.                                             *)
+Theorem C01_lcm_solve_is_the_backward_recursion_of_its_components :
+  forall (T_params T_choice_grids T_sc_space T_space_info T_state_indexer T_segments T_u_and_f T_compute_ccv
+          T_compute_ccv_argmax T_calculator T_arr T_ccvals : Type)
+         (choice_grids : T_choice_grids) (empty_space_infos : T_space_info) (empty_state_indexers : T_state_indexer)
+         (d_space_infos : T_space_info) (d_choice_segments : T_segments)
+         (create_state_choice_space : nat -> bool -> T_sc_space * T_space_info * T_state_indexer * T_segments)
+         (get_utility_and_feasibility_function : T_space_info -> nat -> bool -> T_u_and_f)
+         (create_ccv : T_u_and_f -> T_compute_ccv) (create_policy : T_u_and_f -> T_compute_ccv_argmax)
+         (get_solve_discrete_problem : bool -> T_segments -> T_calculator)
+         (d_space : T_sc_space) (d_indexers : T_state_indexer) (d_grids : T_choice_grids) (d_ccv : T_compute_ccv)
+         (d_emax : T_calculator)
+         (solve_continuous_problem : T_sc_space -> T_compute_ccv -> T_choice_grids -> option T_arr -> T_state_indexer -> T_params -> T_ccvals)
+         (apply_emax : T_calculator -> T_ccvals -> T_params -> T_arr) (n : nat) (params : T_params) d t,
+  let V := lcm_solve T_params T_choice_grids T_sc_space T_space_info T_state_indexer T_segments T_u_and_f T_compute_ccv
+             T_compute_ccv_argmax T_calculator T_arr T_ccvals choice_grids empty_space_infos empty_state_indexers
+             d_space_infos d_choice_segments create_state_choice_space get_utility_and_feasibility_function
+             create_ccv create_policy get_solve_discrete_problem d_space d_indexers d_grids d_ccv d_emax
+             solve_continuous_problem apply_emax n params in
+  (t < n)%nat ->
+  nth t V d =
+  apply_emax
+    (get_solve_discrete_problem (t =? n - 1)%nat (snd (create_state_choice_space t (t =? n - 1)%nat)))
+    (solve_continuous_problem
+       (fst (fst (fst (create_state_choice_space t (t =? n - 1)%nat))))
+       (create_ccv
+          (get_utility_and_feasibility_function
+             (if (S t <? n)%nat then snd (fst (fst (create_state_choice_space (S t) (S t =? n - 1)%nat))) else empty_space_infos)
+             t (t =? n - 1)%nat))
+       choice_grids
+       (if (S t =? n)%nat then None else Some (nth (S t) V d))
+       (if (S t <? n)%nat then snd (fst (create_state_choice_space (S t) (S t =? n - 1)%nat)) else empty_state_indexers)
+       params)
+    params.
+Proof. exact lcm_solve_recursion. Qed.
+Print Assumptions C01_lcm_solve_is_the_backward_recursion_of_its_components.
